@@ -56,7 +56,34 @@ def rule_eol(model):
                 if v is not None:
                     pat, pname = v, n.func.value.id
     if pat is None:
-        raise AnalysisError('skip_eol: line-end pattern not found')
+        # a hand-written scan: what it calls blank must be blank or tab
+        text_p = fi.params()[1] if len(fi.params()) > 1 else None
+        scans = []
+        for n in own_nodes(fi.node):
+            if isinstance(n, ast.Call) and isinstance(
+                    n.func, ast.Attribute) and n.func.attr in (
+                        'strip', 'lstrip', 'rstrip', 'isspace', 'split') \
+                    and any(isinstance(x, ast.Name) and x.id == text_p
+                            for x in ast.walk(n.func.value)):
+                scans.append(n)
+        if not scans:
+            raise AnalysisError('skip_eol: line-end pattern not found')
+        for n in scans:
+            chars = None
+            if n.args and isinstance(n.args[0], ast.Constant) and \
+                    isinstance(n.args[0].value, str) and \
+                    n.func.attr != 'isspace':
+                chars = set(n.args[0].value)
+            ok = chars is not None and chars <= {' ', '\t'}
+            r.instance(fi.where, n, 'blank/tab only' if ok
+                       else 'ALL WHITESPACE')
+            if not ok:
+                r.finding(fi.where, n, 'the line-end skip treats every '
+                          'whitespace character (\\r, \\x0b, \\x0c, '
+                          'NBSP ...) as a blank: such characters after a '
+                          'block tag are dropped instead of being '
+                          'reproduced', node=n, ctx=fi)
+        return r
     inc, wit = regexa.included(pat, REFERENCE)
     r.instance(fi.where, repr(pat), 'subset of [ \\t]*\\n' if inc
                else f'accepts {wit!r}')
@@ -586,8 +613,116 @@ def rule_epfs_upper(model):
     return r
 
 
+def compiled_block_origins(model):
+    """Where the compiled blocks a template stores (self._v_blocks = ...)
+    come from.  -> list of (fi, node, kind, container, key_deps) with kind
+    'parse' (parsed by this template right here) or 'shared' (read from a
+    container that outlives / is shared between templates: a module-level
+    or class-level mapping).  key_deps: the `self.<attr>` / names the
+    lookup key is computed from."""
+    S = model.cls('DT_String', 'String')
+    out = []
+    for fi in model.closure(S.methods['cook']):
+        for n in own_nodes(fi.node):
+            if not (isinstance(n, ast.Assign) and any(
+                    isinstance(t, ast.Attribute) and t.attr == '_v_blocks'
+                    for t in n.targets)):
+                continue
+            seen = set()
+
+            def deps(e, depth=0):
+                d = set()
+                for x in ast.walk(e):
+                    if isinstance(x, ast.Attribute) and isinstance(
+                            x.value, ast.Name) and x.value.id == 'self':
+                        d.add('self.' + x.attr)
+                    elif isinstance(x, ast.Call) and norm(x.func) == 'type' \
+                            and x.args and norm(x.args[0]) == 'self':
+                        d.add('self.__class__')
+                    elif isinstance(x, ast.Name) and depth < 4 and \
+                            x.id not in seen:
+                        seen.add(x.id)
+                        for df in model.local_defs(fi, x.id):
+                            if isinstance(df, ast.AST):
+                                d |= deps(df, depth + 1)
+                return d
+
+            def origins(e, depth=0):
+                if isinstance(e, ast.Call) and isinstance(
+                        e.func, ast.Attribute) and e.func.attr == 'parse' \
+                        and norm(e.func.value) == 'self':
+                    return [('parse', None, set())]
+                cont = key = None
+                if isinstance(e, ast.Subscript):
+                    cont, key = e.value, e.slice
+                elif isinstance(e, ast.Call) and isinstance(
+                        e.func, ast.Attribute) and e.func.attr in (
+                            'get', 'setdefault', 'pop') and e.args:
+                    cont, key = e.func.value, e.args[0]
+                if cont is not None:
+                    shared = False
+                    if isinstance(cont, ast.Name) and not [
+                            d for d in model.local_defs(fi, cont.id)]:
+                        shared = True          # module-level name
+                    elif isinstance(cont, ast.Attribute):
+                        base = norm(cont.value)
+                        if base in ('self.__class__', 'type(self)') or (
+                                base == 'self' and model.lookup_class_attr(
+                                    S, cont.attr)[1] is not None):
+                            shared = True      # class-level attribute
+                        elif base != 'self':
+                            shared = True
+                    if shared:
+                        return [('shared', norm(cont), deps(key))]
+                if isinstance(e, ast.Name) and depth < 4:
+                    res = []
+                    for df in model.local_defs(fi, e.id):
+                        if isinstance(df, ast.AST):
+                            res += origins(df, depth + 1)
+                    return res
+                if isinstance(e, ast.IfExp):
+                    return origins(e.body, depth + 1) + \
+                        origins(e.orelse, depth + 1)
+                if isinstance(e, ast.BoolOp):
+                    res = []
+                    for v in e.values:
+                        res += origins(v, depth + 1)
+                    return res
+                return []
+            for kind, cont, kd in origins(n.value):
+                out.append((fi, n, kind, cont, kd))
+    return out
+
+
+READER_DEPS = {'self.__class__', 'self.tagre', 'self.parseTag',
+               'self._parseTag', 'self.commands'}
+
+
+def rule_block_origin(model):
+    r = RuleResult('C01.R7', 'the blocks a template renders are the parse '
+                   'of its own source by its own tag reader: blocks taken '
+                   'from a store shared between templates are looked up by '
+                   'a key that identifies the reader (class), since the '
+                   'same text is a different template in the other syntax')
+    os_ = compiled_block_origins(model)
+    for fi, n, kind, cont, kd in os_:
+        r.instance(fi.where, n, 'parsed here' if kind == 'parse' else
+                   f'shared store {cont} keyed by {sorted(kd)}')
+        if kind == 'shared' and not (kd & READER_DEPS):
+            r.finding(fi.where, n, f'compiled blocks are taken from the '
+                      f'shared store `{cont}` by a key that does not '
+                      'identify the tag reader: a template of the other '
+                      'syntax with the same text gets foreign blocks (its '
+                      'literal text is interpreted as tags, its tags are '
+                      'emitted as text)', node=n, ctx=fi)
+    if not any(k == 'parse' for _, _, k, _, _ in os_):
+        raise AnalysisError('C01.R7: cook() does not parse the source')
+    r.floor = 1
+    return r
+
+
 RULES = [rule_eol, rule_who_skips, rule_provenance, rule_prefix_widths,
-         rule_tag_identity, rule_epfs_upper]
+         rule_tag_identity, rule_epfs_upper, rule_block_origin]
 EXPLANATION = (
     'Regex language inclusion of the line-end pattern in [ \\t]*\\n; '
     'who-may-call query for skip_eol with origin pairing of its argument; '
